@@ -345,7 +345,7 @@ ACTION_CONSTRAINT Props
 CHECK_DEADLOCK FALSE
 """
 INVS = {
-    "C02": ["Disjoint", "InBounds", "MapAligned"],
+    "C02": ["Disjoint", "InBounds", "MapAligned", "AbsSafe"],
     "C03": ["LookupCoherent", "Disjoint"],
     "C18": ["PathsDistinct", "VisiblePrefixFree"],
 }
@@ -424,6 +424,11 @@ def main(prop, tier):
     if w.violated != WITNESS[prop]:
         raise common.MachineryError(f"vacuity witness {WITNESS[prop]} was not refuted")
     run.cov["vacuity_witnesses_refuted"] = [WITNESS[prop]]
+    if prop == "C02":
+        # deductive leg: the abstract allocator MemoryMapAbs (which MemoryMap_MC was just checked to refine, and
+        # against whose step relation every recorded step of the real code is validated below) is safe for EVERY size
+        from . import proofs
+        proofs.run_for("C02", run, with_apalache=True)
     # ---- leg B: TLC-generated behaviours replayed on real objects
     num, depth = (400, 14) if thorough else (120, 10)
     sres, behs = tlc.simulate_behaviours("MemoryMap_MC", MC.format(items=5, als="{0, 1}", rich="FALSE"), num=num, depth=depth,
